@@ -33,7 +33,17 @@
 (* components", docs/reference/settings).  Files of directories that exist *)
 (* but are not searched must not be returned.                              *)
 (*                                                                         *)
-(* The last part names two deviations of the implementation so that a      *)
+(* HOW a directory is written down does not matter: a COMPONENTS.dirs /    *)
+(* STATICFILES_DIRS element is an absolute path and denotes the directory  *)
+(* it leads to - with a trailing slash, with "." or ".." segments, through *)
+(* a symbolic link, or listed several times under different spellings, it  *)
+(* is one component directory whose files are returned once each.  An      *)
+(* app_dirs element is a path relative to the app ("The paths must be      *)
+(* relative to app"): "ui/widgets", "components/", "./components" denote   *)
+(* <app>/ui/widgets, <app>/components, and the dotted path has one part    *)
+(* per path segment.                                                       *)
+(*                                                                         *)
+(* The last part names the deviations of the implementation so that a      *)
 (* failing case is classified as a known finding or as a new violation.    *)
 (***************************************************************************)
 EXTENDS Integers, Sequences, FiniteSets
@@ -71,6 +81,13 @@ LastDot(n) == IF \E i \in 1..Len(n) : Ch(n, i) = "."
 Stem(n) == IF LastDot(n) <= 1 THEN n ELSE SubSeq(n, 1, LastDot(n) - 1)
 ModParts(root, e) == root.prefix \o DirParts(e) \o (IF Stem(Name(e)) = "__init__" THEN <<>> ELSE <<Stem(Name(e))>>)
 DotPath(root, e) == JoinWith(ModParts(root, e), ".")
+\* A directory that the configuration names through a symbolic link lying inside the project (root.alias =
+\* the path of the link from BASE_DIR) can be imported from the project root under two dotted paths - through
+\* its real location and through the link.  The property does not say which; both are admitted (and
+\* autodiscover() is then not demanded, AliasListed).  Every other spelling leaves exactly DotPath.
+AliasListed(root) == \E i \in DOMAIN root.src : root.src[i].spell = "alias"
+DotPaths(root, e) == {DotPath(root, e)} \cup
+                     (IF AliasListed(root) THEN {DotPath([prefix |-> root.alias], e)} ELSE {})
 \* The dotted path is only meaningful when no directory part and no stem contains a dot
 \* (otherwise the joined string does not determine the parts); elsewhere only the selection is compared.
 DotDetermined(e) == /\ \A i \in 1..(Len(e.parts) - 1) : ~Contains(e.parts[i], ".")
@@ -96,55 +113,108 @@ Loadable(tree, e) ==
        ~HasFile(tree, DirParts(e) \o <<Stem(Name(e)), "__init__.py">>)        \* a package of that name wins
 
 (* ---- which directories are searched ------------------------------------ *)
-\* r.src: sequence of mentions [in |-> "dirs" | "static" | "default", form |-> ...] (form = how the path is
-\*   written - str / Path / (prefix, path) tuple - and means nothing here):
+\* r.src: sequence of mentions [in |-> "dirs" | "static" | "default", form |-> ..., spell |-> ...]:
 \*     "dirs"    the directory is an element of COMPONENTS.dirs
 \*     "static"  the directory is an element of STATICFILES_DIRS
 \*     "default" the directory is BASE_DIR/components
-\*   a directory root without mentions is just a directory of the project.  App roots (kind "app") are
-\*   <app package>/<name>, name = the last element of the prefix.
-\* cfg.dirs \in {"unset", "set"}: COMPONENTS.dirs is not given / given; the given list is exactly the roots
-\*   with a "dirs" mention, so it is EMPTY when there is none.  Likewise STATICFILES_DIRS is the list of roots
-\*   with a "static" mention (Django's default: empty).
-\* cfg.appdirs \in {"unset", "set"}, cfg.appnames the given list of names (may be empty).
+\*   form = how the element is written (str / Path / (prefix, path) tuple), spell = how its absolute path is
+\*   spelled; neither means anything for what is searched or selected:
+\*     "plain"   /base/comps              "slash"   /base/comps/          "dot"    /base/./comps
+\*     "dotdot"  /base/conf/../comps      "updown"  /base/comps/../comps
+\*     "alias"   /base/<r.alias>, a symbolic link to the directory (r.alias = <<>>: no such link exists)
+\*   A directory may be mentioned SEVERAL times in the same list (under the same or different spellings): it is
+\*   still one component directory.  A directory root without mentions is just a directory of the project.
+\* App roots (kind "app") are <app package>/<path>: r.app = the parts of the app's package name, r.prefix =
+\*   r.app followed by the path segments.
+\* cfg.dirs \in {"unset", "set"}: COMPONENTS.dirs is not given / given; the given list is exactly the mentions
+\*   "dirs" of the roots, so it is EMPTY when there is none.  Likewise STATICFILES_DIRS is the list of "static"
+\*   mentions (Django's default: empty).
+\* cfg.appdirs \in {"unset", "set"}, cfg.appnames the given list of entries (may be empty), each
+\*   [segs |-> <<"ui", "widgets">>, spell |-> "plain" ("ui/widgets") | "slash" ("ui/widgets/") | "dot" ("./ui/widgets")]
+\*   - a relative path, denoting <app>/ui/widgets however it is spelled.
 \*   - COMPONENTS.dirs given: exactly its elements (none for the empty list), whatever STATICFILES_DIRS says;
 \*   - not given: the legacy STATICFILES_DIRS when that is non-empty, else the default BASE_DIR/components;
-\*   - app directories: <app>/<name> for every name of app_dirs (default <<"components">>; none for <<>>).
+\*   - app directories: <app>/<path> for every entry of app_dirs (default "components"; none for <<>>).
+Spells == {"plain", "slash", "dot", "dotdot", "updown", "alias"}
+AppSpells == {"plain", "slash", "dot"}
 In(r, w) == \E i \in DOMAIN r.src : r.src[i].in = w
 StaticGiven(roots) == \E k \in DOMAIN roots : roots[k].kind = "dirs" /\ In(roots[k], "static")
-AppNames(cfg) == IF cfg.appdirs = "unset" THEN {"components"} ELSE {cfg.appnames[i] : i \in DOMAIN cfg.appnames}
+AppPaths(cfg) == IF cfg.appdirs = "unset" THEN {<<"components">>} ELSE {cfg.appnames[i].segs : i \in DOMAIN cfg.appnames}
 Searched(cfg, roots, k) ==
   LET r == roots[k] IN
-  IF r.kind = "app" THEN r.prefix[Len(r.prefix)] \in AppNames(cfg)
+  IF r.kind = "app" THEN \E p \in AppPaths(cfg) : r.prefix = r.app \o p
   ELSE \/ cfg.dirs = "set" /\ In(r, "dirs")
        \/ cfg.dirs = "unset" /\ In(r, "static")
        \/ cfg.dirs = "unset" /\ ~StaticGiven(roots) /\ In(r, "default")
 Active(cfg, roots) == {k \in DOMAIN roots : Searched(cfg, roots, k)}
-\* a configuration that can be written down: a "dirs" mention needs COMPONENTS.dirs to be given
-CfgWellFormed(cfg, roots) == (\E k \in DOMAIN roots : roots[k].kind = "dirs" /\ In(roots[k], "dirs")) => cfg.dirs = "set"
+\* a configuration that can be written down: a "dirs" mention needs COMPONENTS.dirs to be given, a spelling through
+\* a link needs the link; app_dirs entries are non-empty relative paths none of which lies inside another
+\* (nested component directories are outside the property) - the SAME path may be given several times.
+CfgWellFormed(cfg, roots) ==
+  /\ (\E k \in DOMAIN roots : roots[k].kind = "dirs" /\ In(roots[k], "dirs")) => cfg.dirs = "set"
+  /\ \A k \in DOMAIN roots : \A i \in DOMAIN roots[k].src :
+       /\ roots[k].src[i].spell \in Spells
+       /\ roots[k].src[i].spell = "alias" => roots[k].alias # <<>>
+  /\ \A k \in DOMAIN roots : roots[k].kind = "app" => IsPrefix(roots[k].app, roots[k].prefix)
+  /\ cfg.base \in {"plain", "dotdot", "alias"}
+  /\ \A i \in DOMAIN cfg.appnames : cfg.appnames[i].segs # <<>> /\ cfg.appnames[i].spell \in AppSpells
+  /\ \A i, j \in DOMAIN cfg.appnames :
+       IsPrefix(cfg.appnames[i].segs, cfg.appnames[j].segs) => cfg.appnames[i].segs = cfg.appnames[j].segs
 
 (* ---- expected result of get_component_files(sfx) over several roots ---- *)
-\* roots: sequence of root records; trees: sequence of trees (same length)
-Row(k, root, e) == [k |-> k, parts |-> e.parts, dot |-> DotPath(root, e), cmpdot |-> DotDetermined(e)]
+\* roots: sequence of root records; trees: sequence of trees (same length).  A row: the file (root k, parts),
+\* the dotted path (dots: every admitted one), n: how many times it is returned (once).
+Row(k, root, e, n) == [k |-> k, parts |-> e.parts, dot |-> DotPath(root, e), dots |-> DotPaths(root, e),
+                       cmpdot |-> DotDetermined(e), n |-> n]
 Expected(cfg, roots, trees, sfx) ==
-  UNION {{Row(k, roots[k], e) : e \in {x \in trees[k] : Selected(x, sfx)}} : k \in Active(cfg, roots)}
+  UNION {{Row(k, roots[k], e, 1) : e \in {x \in trees[k] : Selected(x, sfx)}} : k \in Active(cfg, roots)}
+\* cfg.base: how BASE_DIR itself is spelled ("plain" / "dotdot": /base/conf/.. / "alias": a symbolic link to the
+\* project directory).  It is the project root however it is spelled: Expected does not look at it.
 
 (* ---- named deviations of the implementation ---------------------------- *)
-\* Dev_DirectoryReturned: the glob result is not restricted to files, so a public directory whose
-\* name ends with the suffix (any public directory for suffix=None) is returned as an entry.
-\* The directories implied by file entries exist as well.
+\* Each deviation has a trigger (the shape of the case) and a predicted wrong outcome; a failing observation
+\* that equals the prediction of a set D of triggered deviations is classified as those known findings.
+\* "dir"   directory-matches-suffix:returned-as-file - the glob result is not restricted to files, so a public
+\*         directory whose name ends with the suffix (any public directory for suffix=None) is returned as an
+\*         entry.  The directories implied by file entries exist as well.
+\* "glob"  root-path-has-glob-metachar:nothing-found - the directory path is pasted into the glob pattern
+\*         unescaped, so a root whose absolute path contains a glob character class (root.globmeta) yields nothing.
+\* "appdup" app_dirs-entry-repeated:files-returned-once-per-entry - the app directories are searched once per
+\*         app_dirs ENTRY, so an entry given twice ("components", "components/") returns every file twice.
+\* "base"  base-dir-not-normalised:ValueError - dotted paths of project directories are computed relative to the
+\*         BASE_DIR string as written while the directories are normalised: with BASE_DIR spelled through ".."
+\*         or a symbolic link the first selected file of a project directory raises ValueError.
 ImpliedDirs(tree) == UNION {{Dir(SubSeq(e.parts, 1, i)) : i \in 1..(Len(e.parts) - 1)} : e \in tree}
 AllEntries(tree) == tree \cup ImpliedDirs(tree)
 DevDirSelected(e, sfx) == HasSuffix(Name(e), sfx) /\ Public(e)
-\* Dev_GlobMetaInPath: the directory path is pasted into the glob pattern unescaped, so a root whose
-\* absolute path contains a glob character class yields nothing.  root.globmeta marks such roots.
-DevExpected(cfg, roots, trees, sfx) ==
-  UNION {{Row(k, roots[k], e) : e \in {x \in AllEntries(trees[k]) : DevDirSelected(x, sfx)}} :
-           k \in {j \in Active(cfg, roots) : ~roots[j].globmeta}}
-DevKeysFor(cfg, roots, trees, sfx) ==
-  (IF \E k \in Active(cfg, roots) : \E x \in AllEntries(trees[k]) : x.kind = "dir" /\ DevDirSelected(x, sfx)
-      /\ ~roots[k].globmeta
-   THEN {"directory-matches-suffix:returned-as-file"} ELSE {})
-  \cup (IF \E k \in Active(cfg, roots) : roots[k].globmeta /\ \E x \in trees[k] : Selected(x, sfx)
-        THEN {"root-path-has-glob-metachar:nothing-found"} ELSE {})
+AppMult(cfg, r) == IF r.kind = "app" /\ cfg.appdirs = "set"
+                   THEN Cardinality({i \in DOMAIN cfg.appnames : r.prefix = r.app \o cfg.appnames[i].segs}) ELSE 1
+AllDevs == {"dir", "glob", "appdup", "base"}
+DevKey(d) == CASE d = "dir" -> "directory-matches-suffix:returned-as-file"
+               [] d = "glob" -> "root-path-has-glob-metachar:nothing-found"
+               [] d = "appdup" -> "app_dirs-entry-repeated:files-returned-once-per-entry"
+               [] d = "base" -> "base-dir-not-normalised:ValueError"
+Triggered(cfg, roots, trees, sfx, d) ==
+  CASE d = "dir" -> \E k \in Active(cfg, roots) : ~roots[k].globmeta /\
+                      \E x \in AllEntries(trees[k]) : x.kind = "dir" /\ DevDirSelected(x, sfx)
+    [] d = "glob" -> \E k \in Active(cfg, roots) : roots[k].globmeta /\ \E x \in trees[k] : Selected(x, sfx)
+    [] d = "appdup" -> \E k \in Active(cfg, roots) : AppMult(cfg, roots[k]) > 1 /\ \E x \in trees[k] : Selected(x, sfx)
+    [] d = "base" -> cfg.base # "plain" /\
+                     \E k \in Active(cfg, roots) : roots[k].kind = "dirs" /\ \E x \in trees[k] : Selected(x, sfx)
+DevsFor(cfg, roots, trees, sfx) == {d \in AllDevs : Triggered(cfg, roots, trees, sfx, d)}
+\* how an exception of get_component_files is recorded: one row, root 0
+Raised(exc) == {[k |-> 0, parts |-> <<"<" \o exc \o ">">>, dot |-> "", dots |-> {""}, cmpdot |-> FALSE, n |-> 1]}
+DevExpectedW(cfg, roots, trees, sfx, D) ==
+  IF "base" \in D THEN Raised("ValueError") ELSE
+  UNION {{Row(k, roots[k], e, IF "appdup" \in D THEN AppMult(cfg, roots[k]) ELSE 1) :
+            e \in IF "dir" \in D THEN {x \in AllEntries(trees[k]) : DevDirSelected(x, sfx)}
+                  ELSE {x \in trees[k] : Selected(x, sfx)}} :
+           k \in {j \in Active(cfg, roots) : "glob" \in D => ~roots[j].globmeta}}
+\* the alternatives a failing observation is compared with: every non-empty set of triggered deviations
+DevAlternatives(cfg, roots, trees, sfx) ==
+  {[keys |-> {DevKey(d) : d \in D}, rows |-> DevExpectedW(cfg, roots, trees, sfx, D)] :
+     D \in (SUBSET DevsFor(cfg, roots, trees, sfx)) \ {{}}}
+\* all triggered deviations at once (what the implementation with every deviation returns)
+DevExpected(cfg, roots, trees, sfx) == DevExpectedW(cfg, roots, trees, sfx, DevsFor(cfg, roots, trees, sfx))
+DevKeysFor(cfg, roots, trees, sfx) == {DevKey(d) : d \in DevsFor(cfg, roots, trees, sfx)}
 =============================================================================
